@@ -58,8 +58,9 @@ Definition ether_set_payload (p : slice) (plen : nat) : res slice :=
 
 (* func (p Ether) AppendPayload(payload []byte) (Ether, error)
      if len(payload)+14 > cap(p) { return nil, ErrPayloadTooBig }
-     copy(p.Payload()[:cap(payload)], payload)    -- cap(payload), not len: panics when the
-                                                     caller's slice has more capacity than p
+     copy(p.Payload()[:len(payload)], payload)    -- repo commit 564095a (was [:cap(payload)]:
+                                                     panic when the caller's slice had spare capacity;
+                                                     [pcap] is kept as an argument and no longer used)
      tmp := p[:14+len(payload)]
      if n := len(tmp); n < 60 { tmp = tmp[:60]; zero tmp[n:60] } *)
 Definition ether_append (p : slice) (payload : bytes) (pcap : nat) : res slice :=
@@ -67,8 +68,8 @@ Definition ether_append (p : slice) (payload : bytes) (pcap : nat) : res slice :
   if Nat.ltb (cap p) (plen + 14) then Err EPayloadTooBig else
   (n <- ether_hlen p ;;
    pl <- ether_payload p ;;
-   _ <- sl pl 0 pcap ;;
-   let a1 := if Nat.ltb (len p) n then arr p else blit n (firstn pcap payload) (arr p) in
+   _ <- sl pl 0 plen ;;
+   let a1 := if Nat.ltb (len p) n then arr p else blit n payload (arr p) in
    tmp <- reslice (mkSlice a1 (len p)) (14 + plen) ;;
    if Nat.ltb (14 + plen) 60 then
      (tmp2 <- reslice tmp 60 ;;
@@ -324,9 +325,9 @@ Definition na_marshal (router solicited override : bool) (tip tmac : bytes) : re
 
 (* func ICMP6NeighborSolicitationMarshal(targetAddr netip.Addr, sourceLLA net.HardwareAddr) ([]byte, error)
      b := make([]byte, 32); b[0] = 135; copy(b[8:], targetAddr.AsSlice());
-     b[24] = 2  -- DEFECT (#11): the source link-layer address option is type 1
+     b[24] = 1  -- source link-layer address option (repo commit 6b9f9d7; was 2, DESIGN #11)
      b[25] = 1; copy(b[26:], sourceLLA) *)
-Definition NS_OPT_TYPE : N := 2.
+Definition NS_OPT_TYPE : N := 1.
 Definition ns_marshal_ty (ty : N) (tip slla : bytes) : res slice :=
   (b <- Ok (mkSlice (repeat 0 32) 32) ;;
    b <- seti b 0 135 ;;
